@@ -42,7 +42,12 @@ theorem bufferOp_start (cfg : Cfg) (s : AState) (op : Op) : (bufferOp cfg s op).
 theorem doWrap_start (s : AState) : (doWrap s).1.start = s.start := by
   unfold doWrap
   split <;> (try simp)
-  split <;> simp
+  · split <;> simp
+  · split
+    · split
+      · split <;> simp
+      · simp
+    · simp
 
 /-- **yyinput never changes the start condition** (including across yywrap). -/
 theorem inputOp_start (cfg : Cfg) (s : AState) (fuel : Nat) : (inputOp cfg s fuel).start = s.start := by
